@@ -1,1 +1,203 @@
-// placeholder
+//! C14 (codec level) — RFC 4884 splitting for every length, faithful object / MPLS decoding.
+use trippy_packet::icmp_extension::extension_header::ExtensionHeaderPacket;
+use trippy_packet::icmp_extension::extension_object::{ClassNum, ClassSubType, ExtensionObjectPacket};
+use trippy_packet::icmp_extension::extension_splitter::split;
+use trippy_packet::icmp_extension::extension_structure::ExtensionsPacket;
+use trippy_packet::icmp_extension::mpls_label_stack::MplsLabelStackPacket;
+use trippy_packet::icmp_extension::mpls_label_stack_member::MplsLabelStackMemberPacket;
+use trippy_packet::{icmpv4, icmpv6};
+
+const BODY: usize = 1024;
+
+/// Structural post-conditions of a split of `body` (all by address, content-independent).
+fn check_split(length: usize, body: &[u8], payload: &[u8], ext: Option<&[u8]>) {
+    let b0 = body.as_ptr() as usize;
+    let bl = body.len();
+    // payload is a prefix of the ICMP body
+    assert!(payload.as_ptr() as usize == b0 && payload.len() <= bl, "payload is a prefix of the body");
+    match ext {
+        None => assert!(payload.len() == bl, "no extension: whole body is the original datagram"),
+        Some(e) => {
+            let e0 = e.as_ptr() as usize;
+            assert!(e0 + e.len() == b0 + bl, "extension is a suffix of the body");
+            assert!(e.len() >= 4, "extension holds at least the 4-byte header");
+            assert!(b0 + payload.len() <= e0, "payload and extension do not overlap");
+            assert!(bl > 128, "extensions need more than 128 octets of body");
+            if length > 128 {
+                assert!(payload.len() == length && e0 - b0 == length, "compliant: split exactly at length");
+            } else if length > 0 {
+                assert!(payload.len() == length && e0 - b0 == 128, "compliant short: trimmed to length, ext at 128");
+            } else {
+                assert!(payload.len() == 128 && e0 - b0 == 128, "legacy: 128-octet convention");
+            }
+        }
+    }
+    // completeness: when is an extension reported
+    let start = if length > 128 { length } else { 128 };
+    let want_ext = length <= bl && bl > 128 && bl >= start + 4;
+    assert!(ext.is_some() == want_ext, "extension present iff the RFC 4884 layout leaves room for a header");
+}
+
+/// `split` for EVERY length 0..=2040 (255 * 8) and EVERY body length 0..=1024.
+#[kani::proof]
+#[kani::unwind(4)]
+fn c14_split_all_lengths() {
+    let body = [0u8; BODY];
+    let bl: usize = kani::any();
+    kani::assume(bl <= BODY);
+    let length: usize = kani::any();
+    kani::assume(length <= 2040);
+    let (payload, ext) = split(length, &body[..bl]);
+    check_split(length, &body[..bl], payload, ext);
+    kani::cover!(ext.is_some() && length > 128, "compliant long");
+    kani::cover!(ext.is_some() && length > 0 && length <= 128, "compliant short");
+    kani::cover!(ext.is_some() && length == 0, "legacy");
+    kani::cover!(ext.is_none() && bl > 128 && length <= bl, "no room for header");
+}
+
+/// The four real views: every RFC 4884 length byte 0..=255 x every message length 8..=1032.
+macro_rules! split_view {
+    ($name:ident, $view:ty, $scale:expr, $lenoff:expr) => {
+        #[kani::proof]
+        #[kani::unwind(4)]
+        fn $name() {
+            let mut buf = [0u8; BODY + 8];
+            let lb: u8 = kani::any();
+            buf[$lenoff] = lb;
+            let len: usize = kani::any();
+            kani::assume(len >= 8 && len <= BODY + 8);
+            let p = <$view>::new_view(&buf[..len]).unwrap();
+            assert!(p.get_length() == lb);
+            let body = &buf[8..len];
+            let length = usize::from(lb) * $scale; // RFC 4884: 32-bit words (ICMPv4) / 64-bit words (ICMPv6)
+            check_split(length, body, p.payload(), p.extension());
+            assert!(p.payload_raw().as_ptr() == body.as_ptr() && p.payload_raw().len() == body.len());
+            kani::cover!(p.extension().is_some() && length > 128, "compliant long");
+            kani::cover!(p.extension().is_some() && lb == 0, "legacy");
+            kani::cover!(usize::from(lb) * $scale > 255, "scaled length exceeds u8");
+        }
+    };
+}
+split_view!(c14_split_view_icmpv4_time_exceeded, icmpv4::time_exceeded::TimeExceededPacket<'_>, 4, 5);
+split_view!(c14_split_view_icmpv4_dest_unreach, icmpv4::destination_unreachable::DestinationUnreachablePacket<'_>, 4, 5);
+split_view!(c14_split_view_icmpv6_time_exceeded, icmpv6::time_exceeded::TimeExceededPacket<'_>, 8, 4);
+split_view!(c14_split_view_icmpv6_dest_unreach, icmpv6::destination_unreachable::DestinationUnreachablePacket<'_>, 8, 4);
+
+/// The original datagram is recovered unchanged: symbolic 136+12-byte message, compliant length 34
+/// words (136 bytes) — payload()'s bytes equal the bytes that were put in.
+#[kani::proof]
+#[kani::unwind(150)]
+fn c14_original_datagram_recovered() {
+    const DG: usize = 136;
+    let dg: [u8; DG] = kani::any();
+    let ext: [u8; 12] = kani::any();
+    let mut buf = [0u8; 8 + DG + 12];
+    {
+        let mut p = icmpv4::time_exceeded::TimeExceededPacket::new(&mut buf).unwrap();
+        p.set_icmp_type(icmpv4::IcmpType::TimeExceeded);
+        p.set_length((DG / 4) as u8);
+        let mut body = [0u8; DG + 12];
+        body[..DG].copy_from_slice(&dg);
+        body[DG..].copy_from_slice(&ext);
+        p.set_payload(&body);
+    }
+    let p = icmpv4::time_exceeded::TimeExceededPacket::new_view(&buf).unwrap();
+    let pl = p.payload();
+    assert!(pl.len() == DG);
+    let mut i = 0;
+    while i < DG {
+        assert!(pl[i] == dg[i]);
+        i += 1;
+    }
+    let e = p.extension().unwrap();
+    assert!(e.len() == 12);
+    let mut j = 0;
+    while j < 12 {
+        assert!(e[j] == ext[j]);
+        j += 1;
+    }
+}
+
+/// Faithful decoding: the harness ENCODES (with the crate's own setters) an extension structure
+/// holding an MPLS object with m in 0..=2 label-stack members followed by an opaque object with
+/// k in 0..=4 payload bytes, all fields symbolic; decoding yields exactly those objects, labels,
+/// EXP / S / TTL values and bytes, in order, and nothing else.
+#[kani::proof]
+#[kani::unwind(12)]
+fn c14_objects_faithful() {
+    const CAP: usize = 4 + (4 + 8) + (4 + 4);
+    let mut buf = [0u8; CAP];
+    let m: usize = kani::any();
+    let k: usize = kani::any();
+    kani::assume(m >= 1 && m <= 2 && k <= 4);
+    let labels: [u32; 2] = kani::any();
+    let exps: [u8; 2] = kani::any();
+    let ttls: [u8; 2] = kani::any();
+    kani::assume(labels[0] < (1 << 20) && labels[1] < (1 << 20) && exps[0] < 8 && exps[1] < 8);
+    let class2: u8 = kani::any();
+    let sub2: u8 = kani::any();
+    let opaque: [u8; 4] = kani::any();
+    let l1 = 4 + 4 * m;
+    let l2 = 4 + k;
+    let total = 4 + l1 + l2;
+    {
+        let mut h = ExtensionHeaderPacket::new(&mut buf[..4]).unwrap();
+        h.set_version(2);
+    }
+    {
+        let mut o = ExtensionObjectPacket::new(&mut buf[4..4 + l1]).unwrap();
+        o.set_length(l1 as u16);
+        o.set_class_num(ClassNum::MultiProtocolLabelSwitchingLabelStack);
+        o.set_class_subtype(ClassSubType(1));
+    }
+    let mut i = 0;
+    while i < m {
+        let off = 8 + 4 * i;
+        let mut mem = MplsLabelStackMemberPacket::new(&mut buf[off..off + 4]).unwrap();
+        mem.set_label(labels[i]);
+        mem.set_exp(exps[i]);
+        mem.set_bos(if i + 1 == m { 1 } else { 0 });
+        mem.set_ttl(ttls[i]);
+        i += 1;
+    }
+    {
+        let mut o = ExtensionObjectPacket::new(&mut buf[4 + l1..total]).unwrap();
+        o.set_length(l2 as u16);
+        o.set_class_num(ClassNum::from(class2));
+        o.set_class_subtype(ClassSubType(sub2));
+        o.set_payload(&opaque[..k]);
+    }
+    // ---- decode
+    let e = ExtensionsPacket::new_view(&buf[..total]).unwrap();
+    let hdr = ExtensionHeaderPacket::new_view(e.header()).unwrap();
+    assert!(hdr.get_version() == 2);
+    let mut it = e.objects();
+    let o1 = ExtensionObjectPacket::new_view(it.next().unwrap()).unwrap();
+    assert!(usize::from(o1.get_length()) == l1);
+    assert!(o1.get_class_num() == ClassNum::MultiProtocolLabelSwitchingLabelStack);
+    assert!(o1.get_class_subtype() == ClassSubType(1));
+    assert!(o1.payload().len() == 4 * m);
+    let stack = MplsLabelStackPacket::new_view(o1.payload()).unwrap();
+    let mut mi = stack.members();
+    let mut j = 0;
+    while j < m {
+        let mem = MplsLabelStackMemberPacket::new_view(mi.next().unwrap()).unwrap();
+        assert!(mem.get_label() == labels[j] && mem.get_exp() == exps[j] && mem.get_ttl() == ttls[j]);
+        assert!(mem.get_bos() == if j + 1 == m { 1 } else { 0 });
+        j += 1;
+    }
+    assert!(mi.next().is_none(), "no member is invented");
+    let o2 = ExtensionObjectPacket::new_view(it.next().unwrap()).unwrap();
+    assert!(usize::from(o2.get_length()) == l2);
+    assert!(o2.get_class_num().id() == class2 && o2.get_class_subtype().0 == sub2);
+    let pl = o2.payload();
+    assert!(pl.len() == k);
+    let mut q = 0;
+    while q < k {
+        assert!(pl[q] == opaque[q]);
+        q += 1;
+    }
+    assert!(it.next().is_none(), "no object is invented");
+    kani::cover!(m == 2 && k == 4, "largest shape");
+    kani::cover!(k == 0, "empty opaque object");
+}
